@@ -54,7 +54,7 @@ def run(tier):
         run_config(chk, module, cfg, ov,
                    lambda rec, i: {"rec": rec, "seed": chk.seed, "modes": modes, "rot": (i + chk.seed) % rots,
                                    "widen": 260 if (i + chk.seed) % 97 == 0 else 0,
-                                   "manyprops": (i + chk.seed) % 97 == 1, "repeat": 130 if (i + chk.seed) % 97 == 2 else 0,
+                                   "manyprops": (i + chk.seed) % 97 == 1, "metapad": (i // 7) % 11 if i % 5 == 0 else 0, "repeat": 130 if (i + chk.seed) % 97 == 2 else 0,
                                    # the DAQmx twin of the same encoded file (one raw buffer and scaler per channel)
                                    "daqmx": (i + chk.seed) % 97 != 0},
                    "harness.segments", "replay_segments_case", sample_fn=sample_fn)
